@@ -449,13 +449,47 @@ def scenario_delete(config="plain"):
         for p in kept:
             if h.get_array(P.period(p)) is None:
                 problems.append(f"[{config}] delete_arrays(salary, {target}) also removed {p}")
+    # some periods held in memory and others on disk: both kinds go
+    tbs, sim = build("plain")
+    inputs(sim)
+    h = sim.persons.get_holder("salary")
+    h._disk_storage = h.create_disk_storage()
+    h._on_disk_storable = True
+    h._disk_storage.put(numpy.array([7.0, 8.0], dtype=numpy.float32), P.period("2016-03"))
+    sim.delete_arrays("salary", "2016")
+    for p in ("2016-01", "2016-02", "2016-03"):
+        if h.get_array(P.period(p)) is not None:
+            problems.append(f"[memory and disk] after delete_arrays(salary, 2016) the value for {p} is still readable")
+    if h.get_array(P.period("2010-01")) is None:
+        problems.append("[memory and disk] delete_arrays(salary, 2016) also removed 2010-01")
+    return problems
+
+
+def scenario_trace_values():
+    """the value recorded for a request in the trace is the value that request returned - also when the same variable and period was
+    traced before with another value (input deleted and given anew in between)"""
+    import numpy
+    problems = []
+    tbs, sim = build("trace")
+    inputs(sim)
+    first = sim.calculate("net", "2016-01")
+    sim.delete_arrays("net", "2016-01")
+    sim.delete_arrays("salary", "2016-01")
+    sim.set_input("salary", "2016-01", numpy.array([3000.0, 4000.0]))
+    second = sim.calculate("net", "2016-01")
+    node = sim.tracer.trees[-1]
+    if node.value is None or node.value.tolist() != second.tolist():
+        problems.append(f"the trace records {None if node.value is None else node.value.tolist()} for net@2016-01, the request returned {second.tolist()} (an earlier request had returned {first.tolist()})")
+    kid = [c for c in node.children if c.name == "salary"]
+    if not kid or kid[0].value.tolist() != [3000.0, 4000.0]:
+        problems.append(f"the trace records {kid[0].value.tolist() if kid else None} for the read of salary@2016-01, the read returned [3000.0, 4000.0]")
     return problems
 
 
 def run(call):
     try:
         which = call.get("scenarios") or ["precedence", "order", "order-trace", "order-disk", "order-blacklist", "failure", "failure-trace", "trace",
-                                          "delete", "delete-disk", "interrupt-and-cycle"]
+                                          "delete", "delete-disk", "interrupt-and-cycle", "trace-values"]
         problems = []
         for s in which:
             if s == "precedence":
@@ -466,6 +500,8 @@ def run(call):
                 problems += scenario_failure(s.split("-", 1)[1] if "-" in s else "plain")
             elif s == "trace":
                 problems += scenario_trace()
+            elif s == "trace-values":
+                problems += scenario_trace_values()
             elif s == "interrupt-and-cycle":
                 problems += scenario_interrupt_and_cycle()
             elif s.startswith("delete"):
